@@ -64,6 +64,8 @@ def run_c07(res, tier, seed):
     wss = [gen_scope.generate(seed * 104729 + i) for i in range(n_ws)]
     from p_refs import record_workspace
     wss += [record_workspace(rng) for _ in range(8 if tier == "quick" else 80)]
+    from p_refs import run_expected_groups
+    run_expected_groups(res, "C07", wss)
     all_toks = stage1(wss)
     plans, qs = [], []
     for ws, toks in zip(wss, all_toks):
